@@ -743,6 +743,11 @@ impl EventReader {
         }
     }
 
+    /// Skip the event with the given number: it will not be considered again by this reader.
+    pub fn skip(&mut self, event_number: u64) {
+        self.max_seen_event_number = event_number;
+    }
+
     pub fn process_read(
         &mut self,
         event: EventData<'_>,
